@@ -63,8 +63,8 @@ theorem addHonest_frame (t t' : Table) (c x : Nat) (rec : Bool) (h : addHonest t
   unfold addHonest at h
   split_ifs at h <;> simp at h <;> subst h <;> simp [set_other, hx]
 
-theorem addCall_ok (t : Table) (c : Nat) (d : Int) (b : Beh) (h : (addCall t c d b).1 = .ok)
-    (hs : clsAt true b ≠ .streamErr) : (addCall t c d b).2 c = asked d := by
+theorem addCall_ok (t : Table) (c : Nat) (d : Int) (b : Beh) (h : (addCall t c d b).1 = .ok) :
+    (addCall t c d b).2 c = asked d := by
   unfold addCall at h ⊢
   split at h <;> (try split at h) <;> simp_all
   all_goals (exact addHonest_cid _ _ _ _ (by assumption))
@@ -89,8 +89,7 @@ theorem addCall_keeps_r (t : Table) (c : Nat) (d : Int) (b : Beh) (hr : t c = .r
 
 /-- which answers to pin/add make `Pin` return nil -/
 theorem addCall_ok_cls (t : Table) (c : Nat) (d : Int) (b : Beh) (h : (addCall t c d b).1 = .ok) :
-    ((clsAt true b = .honest ∨ clsAt true b = .slowOk) ∧ (addHonest t c (typeRec d)).isSome) ∨
-      clsAt true b = .streamErr := by
+    (clsAt true b = .honest ∨ clsAt true b = .slowOk) ∧ (addHonest t c (typeRec d)).isSome := by
   unfold addCall at h
   split at h <;> (try split at h) <;> simp_all
 
@@ -209,7 +208,7 @@ theorem lsCid_of_failure (i : Input) (x : Nat) (tr : Bool) (b : Beh)
   · simp [h] at hf
 
 theorem addCall_of_failure (i : Input) (k : Nat) (b : Beh)
-    (hf : failure i k (addReq i.cid i.depth) (clsAt true b) = true) (hs : clsAt true b ≠ .streamErr) :
+    (hf : failure i k (addReq i.cid i.depth) (clsAt true b) = true) :
     (addCall i.table i.cid i.depth b).1 = .err := by
   unfold failure addReq at hf
   unfold addCall addHonest
